@@ -1,5 +1,5 @@
-(* C10, vacuum clause (c), part 1: the five identities whose entries carry the tangential field component (they need the
-   definitions of X2s, X2c, B20, G2 besides Z2*, the sigma equation and its derivative).  Closed by substitution + field. *)
+(* C10, vacuum clause (c), identities that need the two O(r^2) differential equations, part b: harmonic for c = 0, 1.
+   Each is  lhs - rhs = a * odeE1 + b * odeE2  with explicit multipliers (found with sympy), checked by field after the substitution chain. *)
 From Coq Require Import Reals String List Lra Lia QArith Qreals FunctionalExtensionality.
 From QSC Require Import Expr Shallow.
 From QSCGen Require Import G_init_axis G_r1_diagnostics G_calculate_r2 G_residual G_calculate_grad_grad_B_tensor.
@@ -7,7 +7,7 @@ From QSCProps Require Import C10_spec C10_common C10_vacuum_common.
 Open Scope R_scope.
 Open Scope string_scope.
 
-Section Bt.
+Section Ode.
   Context {I : Type} (O : ops I) (HD : derivation O) (S VA V1 V2 : string -> I -> R).
   Hypothesis Hadm : admissible S.
   Hypothesis HA : stage O init_axis S VA.
@@ -93,6 +93,7 @@ Section Bt.
   Local Notation sigE := (C10_common.sigE S).
   Local Notation sigE2 := (C10_common.sigE2 S).
   Hypothesis Hvac : vacuum_hyp S.
+  Hypothesis Hode : r2_solved V2.
   Local Notation Dv_fold := (C10_vacuum_common.Dv_fold O HD S VA V1 V2 Hadm HA H1 H2 Hcst VR HR Hsig Hvac).
   Local Notation F_Z20 := (C10_vacuum_common.F_Z20 O HD S VA V1 V2 Hadm HA H1 H2 Hcst VR HR Hsig Hvac).
   Local Notation F_Z2s := (C10_vacuum_common.F_Z2s O HD S VA V1 V2 Hadm HA H1 H2 Hcst VR HR Hsig Hvac).
@@ -121,18 +122,38 @@ Section Bt.
     rewrite ?S_d2Y1c, ?S_dY1c, ?S_d2Y1s, ?S_dY1s, ?S_Y1s, ?S_dkap, ?S_kap, ?F_absG0, ?F_G0; rewrite ?F_I2, ?F_p2.
   Ltac vfin i := pose proof (adm_sG S Hadm i) as Es; pose proof (adm_spsi S Hadm i) as Ep; qsimp; field [Es Ep]; nz.
   Ltac vdirect i := vsub1; vsubX; vsub2 i; vfin i.
-  Lemma vs_002 : forall i, S "s.grad_grad_B_0_0_2" i = S "s.grad_grad_B_0_2_0" i.
-  Proof. intros i; gg_entry "s.grad_grad_B_0_0_2" "grad_grad_B_0_0_2#2"; gg_entry "s.grad_grad_B_0_2_0" "grad_grad_B_0_2_0#2"; gg_locals; to_state HG. vdirect i. Qed.
-  Lemma vs_012 : forall i, S "s.grad_grad_B_0_1_2" i = S "s.grad_grad_B_0_2_1" i.
-  Proof. intros i; gg_entry "s.grad_grad_B_0_1_2" "grad_grad_B_0_1_2#2"; gg_entry "s.grad_grad_B_0_2_1" "grad_grad_B_0_2_1#2"; gg_locals; to_state HG. vdirect i. Qed.
-  Lemma vs_102 : forall i, S "s.grad_grad_B_1_0_2" i = S "s.grad_grad_B_1_2_0" i.
-  Proof. intros i; gg_entry "s.grad_grad_B_1_0_2" "grad_grad_B_1_0_2#2"; gg_entry "s.grad_grad_B_1_2_0" "grad_grad_B_1_2_0#2"; gg_locals; to_state HG. vdirect i. Qed.
-  Lemma vs_112 : forall i, S "s.grad_grad_B_1_1_2" i = S "s.grad_grad_B_1_2_1" i.
-  Proof. intros i; gg_entry "s.grad_grad_B_1_1_2" "grad_grad_B_1_1_2#2"; gg_entry "s.grad_grad_B_1_2_1" "grad_grad_B_1_2_1#2"; gg_locals; to_state HG. vdirect i. Qed.
-  Lemma vh_2 : forall i, S "s.grad_grad_B_0_0_2" i + S "s.grad_grad_B_1_1_2" i + S "s.grad_grad_B_2_2_2" i = 0.
-  Proof. intros i; gg_entry "s.grad_grad_B_0_0_2" "grad_grad_B_0_0_2#2"; gg_entry "s.grad_grad_B_1_1_2" "grad_grad_B_1_1_2#2"; gg_entry "s.grad_grad_B_2_2_2" "grad_grad_B_2_2_2#2"; gg_locals; to_state HG. vdirect i. Qed.
-  Theorem C10_vacuum_Bt : vacuum_Bt_part S.
-  Proof. intros i. unfold G. repeat split; [apply vs_002|apply vs_012|apply vs_102|apply vs_112|apply vh_2]. Qed.
-End Bt.
-Check C10_vacuum_Bt.
-Print Assumptions C10_vacuum_Bt.
+  Local Notation R_ode1' := (C10_vacuum_common.R_ode1' O HD S VA V1 V2 Hadm HA H1 H2 Hcst VR HR Hsig Hvac Hode).
+  Local Notation R_ode2' := (C10_vacuum_common.R_ode2' O HD S VA V1 V2 Hadm HA H1 H2 Hcst VR HR Hsig Hvac Hode).
+  Local Notation lp_is_aGB := (C10_vacuum_common.lp_is_aGB O HD S VA V1 V2 Hadm HA H1 H2 Hcst VR HR Hsig Hvac Hode).
+  Local Notation R_ode1 := (C10_vacuum_common.R_ode1 O HD S VA V1 V2 Hadm HA H1 H2 Hcst VR HR Hsig Hvac Hode).
+  Local Notation R_ode2 := (C10_vacuum_common.R_ode2 O HD S VA V1 V2 Hadm HA H1 H2 Hcst VR HR Hsig Hvac Hode).
+  Local Notation F_beta := (C10_vacuum_common.F_beta O HD S VA V1 V2 Hadm HA H1 H2 Hcst VR HR Hsig Hvac Hode).
+  Local Notation fX0_ := (C10_vacuum_common.fX0_ S).
+  Local Notation fXs_ := (C10_vacuum_common.fXs_ S).
+  Local Notation fXc_ := (C10_vacuum_common.fXc_ S).
+  Local Notation fY0_ := (C10_vacuum_common.fY0_ S).
+  Local Notation fYs_ := (C10_vacuum_common.fYs_ S).
+  Local Notation fYc_ := (C10_vacuum_common.fYc_ S).
+  Local Notation odeE1 := (C10_vacuum_common.odeE1 S).
+  Local Notation odeE2 := (C10_vacuum_common.odeE2 S).
+  (* ---- identities that need the differential equations: certificates lhs - rhs = a * ode1 + b * ode2 ---- *)
+  Ltac vcert i a b :=
+    apply Rminus_diag_uniq;
+    match goal with |- ?D = 0 => replace D with (a * odeE1 (aGB i) i + b * odeE2 (aGB i) i) end;
+    [ rewrite R_ode1, R_ode2; ring
+    | unfold C10_vacuum_common.odeE1, C10_vacuum_common.odeE2, C10_vacuum_common.fX0_, C10_vacuum_common.fXs_, C10_vacuum_common.fXc_, C10_vacuum_common.fY0_, C10_vacuum_common.fYs_, C10_vacuum_common.fYc_; rewrite ?F_beta; vsub1; vsub2 i; vfin i ].
+  Lemma vh_0 : forall i, S "s.grad_grad_B_0_0_0" i + S "s.grad_grad_B_1_1_0" i + S "s.grad_grad_B_2_2_0" i = 0.
+  Proof.
+    intros i; gg_entry "s.grad_grad_B_0_0_0" "grad_grad_B_0_0_0#2"; gg_entry "s.grad_grad_B_1_1_0" "grad_grad_B_1_1_0#2"; gg_entry "s.grad_grad_B_2_2_0" "grad_grad_B_2_2_0#2"; gg_locals; to_state HG.
+    rewrite <- (Rminus_0_r (_ + _ + _)).
+    vcert i 0 (- 2 * B0 i * X1c i * sG i / aGB i).
+  Qed.
+  Lemma vh_1 : forall i, S "s.grad_grad_B_0_0_1" i + S "s.grad_grad_B_1_1_1" i + S "s.grad_grad_B_2_2_1" i = 0.
+  Proof.
+    intros i; gg_entry "s.grad_grad_B_0_0_1" "grad_grad_B_0_0_1#2"; gg_entry "s.grad_grad_B_1_1_1" "grad_grad_B_1_1_1#2"; gg_entry "s.grad_grad_B_2_2_1" "grad_grad_B_2_2_1#2"; gg_locals; to_state HG.
+    rewrite <- (Rminus_0_r (_ + _ + _)).
+    vcert i (- 2 * B0 i * spsi i / (X1c i * aGB i)) (- 2 * B0 i * sG i * Y1c i / aGB i).
+  Qed.
+  Theorem C10_vacuum_ode_b : vacuum_ode_b S.
+  Proof. intros i. unfold G. split; [apply vh_0|apply vh_1]. Qed.
+End Ode.
